@@ -49,6 +49,22 @@ def values(m, queries, order):
     return out
 
 
+MUTATORS = ['canonicalize', 'standardize_charges', 'neutralize']
+
+
+def mutated(spec, op, warm):
+    """result of a normalisation called on the object itself, with cold caches or after reading derived values"""
+    from vf import molgen
+    m = molgen.build(spec)
+    try:
+        if warm:
+            str(m), hash(m), m.atoms_order, m.sssr, m.smiles_atoms_order
+        r = getattr(m, op)()
+        return bool(r) if not isinstance(r, (list, tuple)) else len(r), str(m), [(n, a.charge, a.implicit_hydrogens) for n, a in m.atoms()]
+    except Exception as e:
+        return 'EXC', type(e).__name__
+
+
 KEYS = ['str', 'atoms_order', 'smiles_atoms_order', 'sssr', 'linear', 'morgan', 'linear_bits', 'matches', 'canonicalize', 'pack',
         'components', 'format_m']
 
@@ -76,8 +92,14 @@ def main():
             first_keys = ['atoms_order', 'sssr', 'components', 'linear', 'morgan']
             other = values(b, queries, first_keys + [k for k in KEYS[::-1] if k not in first_keys])
             bad = sorted({k for k in KEYS if not (first[k] == cached[k] == copied[k] == other[k])})
+            for op in MUTATORS:
+                cold, warm = mutated(spec, op, False), mutated(spec, op, True)
+                first['op:' + op] = cold
+                if cold != warm:
+                    bad.append('op:' + op)
+                    cached['op:' + op] = copied['op:' + op] = other['op:' + op] = warm
             out.write(json.dumps({'i': i, 's': first['str'] if isinstance(first['str'], str) else None,
-                                  'digest': {k: dg(first[k]) for k in KEYS}, 'inconsistent': bad,
+                                  'digest': {k: dg(first[k]) for k in KEYS + ['op:' + o for o in MUTATORS]}, 'inconsistent': bad,
                                   'detail': {k: [dg(first[k]), dg(cached[k]), dg(copied[k]), dg(other[k])] for k in bad},
                                   'ties': len(set(a.atoms_order.values())) < len(a), 'rings': a.rings_count}) + '\n')
 
